@@ -166,7 +166,7 @@ def r2_no_significant_child_dropped(w):
                           '%s drops the %s token of a %s node and the literal %r that should re-create it is not among the constants of the converter / stylists'
                           % (last(fn), k, parent, regen))
                 continue
-            why = e2.droppable(grp)
+            why = e2.droppable(grp, w)
             if why:
                 if any(emits) or 'flattening' in why or 'chain' in why or 'empty' in why or 'statements' in why:
                     r.ok(cons, 'droppable: ' + why)
